@@ -9,6 +9,7 @@ import (
 
 	"pgregory.net/rapid"
 	"verif/internal/hx"
+	"verif/internal/ref9p"
 )
 
 func TestMain(m *testing.M) { hx.Main(m, "C16") }
@@ -345,7 +346,7 @@ func genOps(t *rapid.T, g *gtree) []Op {
 	loc := map[uint32]int{0: 0}
 	live := []uint32{0}
 	var ops []Op
-	nops := rapid.IntRange(3, 36).Draw(t, "nops")
+	nops := rapid.IntRange(1, 36).Draw(t, "nops")
 	for len(ops) < nops {
 		kind := rapid.SampledFrom([]string{"walk", "walk", "walk", "walk", "walk", "walk", "stat", "clunk"}).Draw(t, "op")
 		fid := live[rapid.IntRange(0, len(live)-1).Draw(t, "fid")]
@@ -423,7 +424,7 @@ func genOps(t *rapid.T, g *gtree) []Op {
 
 func genCli(t *rapid.T, g *gtree) []CliOp {
 	var out []CliOp
-	n := rapid.IntRange(1, 7).Draw(t, "ncli")
+	n := rapid.IntRange(0, 7).Draw(t, "ncli")
 	for i := 0; i < n; i++ {
 		op := CliOp{Kind: rapid.SampledFrom([]string{"fstat", "fstat", "fwalk", "fopen"}).Draw(t, "cliop")}
 		op.Style = rapid.SampledFrom([]int{0, 0, 0, 1, 2}).Draw(t, "style")
@@ -534,7 +535,7 @@ func labelTree(c *Case) {
 }
 
 func TestPropTree(t *testing.T) {
-	hx.Check(t, "tree", hx.N(220, 1500), func(t *rapid.T) {
+	hx.Check(t, "tree", hx.N(150, 1500), func(t *rapid.T) {
 		c := genCase(t)
 		hx.Journal("tree", c)
 		hx.Sample("tree", sampleOf(c))
@@ -578,4 +579,131 @@ func TestRegress(t *testing.T) {
 		replayEnv(t, e)
 		hx.Label("regress")
 	}
+}
+
+// ---------------------------------------------------------------- enumeration
+
+// enumTree is a fixed small tree over the name alphabet {a b c f l x}:
+//
+//	a/          directory
+//	a/b/        directory
+//	a/b/c       file
+//	a/b/l -> l  symlink to itself
+//	a/f         file
+//	a/l -> ..   symlink to the root
+//	b           hard link to a/f
+//	c -> nx     dangling symlink
+//	f           empty file
+//	l -> a      symlink to a directory
+//
+// "x" exists nowhere.
+func enumTree() []Node {
+	return []Node{
+		{Parent: -1, Kind: "d", Mode: 0o755, Mtime: 1700000000},
+		{Parent: 0, Kind: "d", Name: []byte("a"), Mode: 0o750, Mtime: 1600000000, Nsec: 999999999},
+		{Parent: 1, Kind: "d", Name: []byte("b"), Mode: 0o700, Mtime: 1500000000},
+		{Parent: 2, Kind: "f", Name: []byte("c"), Mode: 0o644, Size: 5, Mtime: 1400000000},
+		{Parent: 1, Kind: "f", Name: []byte("f"), Mode: 0o600, Size: 20, Mtime: 1300000000, Uid: 1000, Gid: 100},
+		{Parent: 0, Kind: "f", Name: []byte("f"), Mode: 0o444, Size: 0, Mtime: 1200000000},
+		{Parent: 0, Kind: "l", Name: []byte("l"), Target: []byte("a"), TNode: 1},
+		{Parent: 0, Kind: "l", Name: []byte("c"), Target: []byte("nx"), TNode: -1},
+		{Parent: 0, Kind: "h", Name: []byte("b"), TNode: 4},
+		{Parent: 1, Kind: "l", Name: []byte("l"), Target: []byte(".."), TNode: 0},
+		{Parent: 2, Kind: "l", Name: []byte("l"), Target: []byte("l"), TNode: -1},
+	}
+}
+
+// TestEnumWalks enumerates, on the fixed tree, every Twalk of 0..3 names over
+// the alphabet from seven starting points, to a new fid and in place, in both
+// dialects.
+func TestEnumWalks(t *testing.T) {
+	alphabet := []string{"a", "b", "c", "f", "l", "x"}
+	var seqs [][]string
+	var rec func(prefix []string)
+	rec = func(prefix []string) {
+		seqs = append(seqs, append([]string(nil), prefix...))
+		if len(prefix) == 3 {
+			return
+		}
+		for _, a := range alphabet {
+			rec(append(prefix, a))
+		}
+	}
+	rec(nil)
+	starts := [][]string{{}, {"a"}, {"a", "b"}, {"f"}, {"l"}, {"a", "b", "c"}, {"c"}}
+	bytesOf := func(ss []string) [][]byte {
+		var out [][]byte
+		for _, s := range ss {
+			out = append(out, []byte(s))
+		}
+		return out
+	}
+	idx := 0
+	for _, dotu := range []bool{false, true} {
+		c := &Case{Tree: enumTree(), SrvDotu: dotu, CliDotu: dotu, Msize: 8192}
+		x, err := setup(c)
+		if x != nil {
+			defer x.close()
+		}
+		if err != nil {
+			if isInfra(err) {
+				hx.Inconclusive(err.Error())
+				return
+			}
+			hx.Violation("enum", c, err.Error())
+			t.Fatalf("%v", err)
+		}
+		for _, start := range starts {
+			for _, inplace := range []bool{false, true} {
+				for _, seq := range seqs {
+					idx++
+					if idx%hx.NShards != hx.Shard {
+						continue
+					}
+					// the replayable form of this combination
+					small := &Case{Tree: c.Tree, SrvDotu: dotu, CliDotu: dotu, Msize: 8192, Ops: []Op{
+						{Kind: "walk", Fid: 0, Newfid: 1, Names: bytesOf(start)},
+						{Kind: "walk", Fid: 1, Newfid: 2, Names: bytesOf(seq)},
+					}}
+					if inplace {
+						small.Ops[1].Newfid = 1
+					}
+					r, err := x.raw.Walk(0, 1, start...)
+					if err != nil || r.Type != ref9p.Rwalk || len(r.Wqid) != len(start) {
+						// the plain walk to the starting point is judged by replaying the small case
+						if e := RunCase(small); e != nil && !isInfra(e) {
+							hx.Violation("enum", small, e.Error())
+							t.Fatalf("%v", e)
+						}
+						hx.Inconclusive(fmt.Sprintf("enum: walk to the start %v failed (%v) but the replayed case passes", start, err))
+						return
+					}
+					p := x.root
+					for _, s := range start {
+						p += "/" + s
+					}
+					x.model[1] = p
+					if err := x.doWalk(1, &small.Ops[1]); err != nil {
+						if isInfra(err) {
+							hx.Inconclusive(err.Error())
+							return
+						}
+						hx.Violation("enum", small, err.Error())
+						t.Fatalf("%v", err)
+					}
+					for _, f := range []uint32{1, 2} {
+						if _, live := x.model[f]; live {
+							if r, err := x.raw.Clunk(f); err != nil || r.Type != ref9p.Rclunk {
+								hx.Inconclusive(fmt.Sprintf("enum: Tclunk(%d): %v %v", f, err, r))
+								return
+							}
+							delete(x.model, f)
+						}
+					}
+				}
+			}
+		}
+		x.close()
+	}
+	hx.Exhaustive("fixed 11-node tree (dirs, files, hard link, symlinks to a directory / to the parent / dangling / to itself): every Twalk of 0..3 names over {a,b,c,f,l,x} from 7 starting fids (root, dir, nested dir, 2 files, symlink to dir, dangling symlink), to a new fid and in place, both dialects")
 }
